@@ -137,10 +137,205 @@ def runIndy (j : Json) : Json :=
     | .error e => Json.mkObj [("res", jerr e.name), ("dump", .null)]
     | .ok st => Json.mkObj [("res", "ok"), ("dump", dumpStore 0 st)]
 
+/-! ### `c18:indyx`: the migration on a file, op by op (wrong key / method, second run, damage, fault, kill) -/
+
+def b58Alphabet : List Char := "123456789ABCDEFGHJKLMNPQRSTUVWXYZabcdefghijkmnopqrstuvwxyz".toList
+
+/-- base58 (Bitcoin alphabet) → bytes; `none` on a foreign character -/
+def b58decode (s : String) : Option Bytes :=
+  let cs := s.toList
+  let digits := cs.map fun c => b58Alphabet.idxOf? c
+  if digits.any (·.isNone) then none
+  else
+    let n := digits.foldl (fun (acc : Nat) d => acc * 58 + d.getD 0) 0
+    let zeros := (cs.takeWhile (· == '1')).length
+    let rec bytesOf (fuel : Nat) (n : Nat) (acc : Bytes) : Bytes :=
+      match fuel with
+      | 0 => acc
+      | fuel + 1 => if n = 0 then acc else bytesOf fuel (n / 256) (UInt8.ofNat (n % 256) :: acc)
+    some (List.replicate zeros 0 ++ bytesOf (cs.length + 1) n [])
+
+/-- 239 bytes, like the msgpack of seven 32-byte keys -/
+def keyRecord : Bytes := List.replicate 239 0x97
+
+def toyPrims : KeyPrims where
+  parseRaw s := match b58decode s with
+    | some b => if b.length = 32 then some b else none
+    | none => none
+  argon lvl pass salt := [if lvl then 2 else 1] ++ utf8 pass ++ [0] ++ salt
+  decodeKeys b := if b == keyRecord then some toyKeys else none
+
+def sealedN (nonce : UInt8) (k m : Bytes) : Bytes :=
+  let n : Bytes := List.replicate 12 nonce
+  n ++ macAead.enc k n m
+
+/-- the case's items as Indy rows under `macAead` (same cell lengths as the real wallet: 12 + plaintext + 16) -/
+def encodeItemX (i : Nat) (x : Json) : Row :=
+  let ik : Bytes := List.replicate 32 (UInt8.ofNat (i % 251))
+  let tags := (parseTags x "t").getD []
+  let te := (tags.filter (!·.plain)).map fun t => (sealedN 7 toyKeys.tagNameKey (utf8 t.name), sealedN 7 toyKeys.tagValueKey (utf8 t.value))
+  let tp := (tags.filter (·.plain)).map fun t => (sealedN 7 toyKeys.tagNameKey (utf8 t.name), utf8 t.value)
+  { id := 2 * i + 1, typ := sealedN 7 toyKeys.typeKey (utf8 (str! x "c")), name := sealedN 7 toyKeys.nameKey (utf8 (str! x "n")),
+    value := some (sealedN 7 ik (value! x "v")), key := sealedN 7 toyKeys.valueKey ik, tagsEnc := te, tagsPlain := tp }
+
+/-- through `GROUP_CONCAT(HEX ‖ ':' ‖ HEX)` and back, as the rows reach `decrypt_item` -/
+def viaPacking (r : Row) : Except Err Row :=
+  let unpack (l : List (Bytes × Bytes)) : Except Err (List (Bytes × Bytes)) :=
+    match packTagList l with
+    | none => .ok []
+    | some s => parseTagList s
+  match unpack r.tagsEnc, unpack r.tagsPlain with
+  | .ok te, .ok tp => .ok { r with tagsEnc := te, tagsPlain := tp }
+  | .error e, _ => .error e
+  | _, .error e => .error e
+
+def cutOrFlip (op : Json) (cell : Bytes) : Bytes :=
+  match natOpt op "len", natOpt op "flip" with
+  | some l, _ => if l < cell.length then cell.take l else cell
+  | none, some p =>
+    if cell.isEmpty then cell
+    else
+      let p := p % cell.length
+      cell.take p ++ (cell.drop p).head!.xor 1 :: cell.drop (p + 1)
+  | none, none => cell
+
+def mapNth {α : Type} (l : List α) (n : Nat) (f : α → α) : List α :=
+  l.zipIdx.map fun (x, i) => if i = n then f x else x
+
+structure XState where
+  f : File
+  missing : Bool
+  fault : Option Nat := none
+  deriving Inhabited
+
+def stateJson (name : String) (pkey : Nat) (x : XState) : Json :=
+  let f := x.f
+  if x.missing then Json.mkObj [("s", "missing")]
+  else if f.hasMeta && !f.upgraded then Json.mkObj [("s", "indy"), ("n", jnat f.pending.length)]
+  else if !f.hasMeta && f.upgraded then Json.mkObj [("s", "askar"), ("dump", dumpStore 0 (f.store name pkey))]
+  else if f.hasMeta && f.upgraded then
+    Json.mkObj [("s", "mixed"), ("config", .arr ((sortBy nameLt (f.config.map (·.1))).map Json.str).toArray),
+      ("profiles", jnat f.db.profiles.length), ("items", jnat f.db.items.length), ("old", jnat f.pending.length)]
+  else Json.mkObj [("s", "other"), ("tables", .arr #[])]
+
+def jresX : Except Err Unit → Json
+  | .ok _ => "ok"
+  | .error .panic => "panic"
+  | .error e => jerr e.name
+
+def runIndyX (j : Json) : Json :=
+  let name := str! j "name"
+  let kdfS := str! j "kdf"
+  let wkey := str! j "wkey"
+  let start := str! j "start"
+  let pkey := 1
+  let kdf := (Kdf.parse kdfS).getD .raw
+  let salt32 : Bytes := (List.range 32).map fun i => UInt8.ofNat (i * 7 + 3)
+  let origSalt : Option Bytes := if kdf == .raw then none else some salt32
+  let master : Bytes := match masterKey toyPrims kdf wkey (origSalt.map (·.take 16)) with
+    | .ok m => m
+    | .error _ => []
+  let origKeys := sealedN 6 master keyRecord
+  let origMeta : Meta := .json origKeys origSalt
+  let origRows : List Row := (arr! j "items").zipIdx.map fun (x, i) => encodeItemX i x
+  let rowId (idx : Nat) : Nat := 2 * idx + 1
+  -- rows as `fetch_pending_items` delivers them; a tag list that does not survive the packing is a case error
+  let deliver (f : File) : File := { f with pending := f.pending.map fun r => match viaPacking r with | .ok r' => r' | .error _ => r }
+  let x0 : XState :=
+    match start with
+    | "indy" => { f := { mval := origMeta, pending := origRows }, missing := false }
+    | "askar" =>
+      let db := match migrateRows macAead utf8dec toyKeys pkey origRows { profiles := [⟨1, name, pkey⟩] } with
+        | .ok db => db
+        | .error _ => { profiles := [⟨1, name, pkey⟩] }
+      { f := { hasMeta := false, upgraded := true, config := [("default_profile", name), ("key", "raw"), ("version", "1")], db := db }, missing := false }
+    | "empty" => { f := { hasMeta := false }, missing := false }
+    | _ => { f := { hasMeta := false }, missing := true }
+  let isIndyWallet := start == "indy"
+  let step (acc : XState × List Json) (op : Json) : XState × List Json :=
+    let (x, outs) := acc
+    let f := x.f
+    let (x', res) : XState × Json :=
+      match str! op "op" with
+      | "tamper" =>
+        if !(isIndyWallet && f.hasMeta) then (x, "done")
+        else
+          match str! op "what" with
+          | "meta" =>
+            let n := nat! op "n"
+            let (keys, salt) := match f.mval with
+              | .json k s => (k, s)
+              | _ => (origKeys, origSalt)
+            let m : Meta := match str! op "mode" with
+              | "salt_len" => .json keys (some (if kdf == .raw then List.replicate n 7 else salt32.take n))
+              | "no_salt" | "salt_null" => .json keys none
+              | "not_json" | "empty" | "no_keys" | "keys_str" => .notJson
+              | "keys_len" => .json (keys.take n) salt
+              | "keys_flip" => .json (cutOrFlip (Json.mkObj [("flip", jnat n)]) keys) salt
+              | "keys_plain" => .json (sealedN 9 master [0xc1, 0xff]) salt
+              | "no_row" => .noRow
+              | _ => f.mval
+            ({ x with f := { f with mval := m } }, "done")
+          | "item" =>
+            let id := rowId (nat! op "idx")
+            let upd (r : Row) : Row :=
+              if r.id ≠ id then r
+              else if str! op "mode" == "key31" then
+                { r with key := sealedN 8 toyKeys.valueKey ((List.replicate 32 (UInt8.ofNat (nat! op "idx" % 251))).take 31) }
+              else match str! op "col" with
+                | "type" => { r with typ := cutOrFlip op r.typ }
+                | "name" => { r with name := cutOrFlip op r.name }
+                | "value" => { r with value := r.value.map (cutOrFlip op) }
+                | "key" => { r with key := cutOrFlip op r.key }
+                | _ => r
+            ({ x with f := { f with pending := f.pending.map upd } }, "done")
+          | "tag" =>
+            let idx := nat! op "idx"
+            let id := rowId idx
+            let tags := (parseTags ((arr! j "items").getD idx .null) "t").getD []
+            let t := nat! op "t"
+            let plain := (tags.getD t default).plain
+            -- position among the tags of the same table
+            let pos := ((tags.take t).filter (·.plain == plain)).length
+            let isName := str! op "part" == "name"
+            let cell (c : Bytes) : Bytes :=
+              if str! op "mode" == "badutf8" then sealedN 8 (if isName then toyKeys.tagNameKey else toyKeys.tagValueKey) [0xff, 0xfe]
+              else cutOrFlip op c
+            let updPair (p : Bytes × Bytes) : Bytes × Bytes := if isName then (cell p.1, p.2) else (p.1, cell p.2)
+            let upd (r : Row) : Row :=
+              if r.id ≠ id then r
+              else if plain then { r with tagsPlain := mapNth r.tagsPlain pos updPair }
+              else { r with tagsEnc := mapNth r.tagsEnc pos updPair }
+            ({ x with f := { f with pending := f.pending.map upd } }, "done")
+          | _ => (x, "done")
+      | "untamper" =>
+        if x.missing then (x, "done")
+        else
+          let pend := f.pending.map fun r => (origRows.find? (·.id == r.id)).getD r
+          ({ x with f := { f with pending := pend, mval := if f.hasMeta && isIndyWallet then origMeta else f.mval } }, "done")
+      | "fault" => (if f.hasMeta then { x with fault := some (rowId (nat! op "idx")) } else x, "done")
+      | "unfault" => ({ x with fault := none }, "done")
+      | "migrate" =>
+        let a : Args := { kdf := str! op "kdf", walletKey := str! op "key", walletName := name, pkey := pkey }
+        let (f', r) := migrateCurrent macAead utf8dec toyPrims x.fault a (deliver f)
+        -- (what was delivered is what is stored: the packing is the identity on well-formed lists)
+        ({ x with f := if x.missing then f else { f' with pending := f'.pending.map fun r => (f.pending.find? (·.id == r.id)).getD r } }, jresX r)
+      | "kill" =>
+        if f.hasMeta && !f.upgraded then
+          let a : Args := { kdf := str! op "kdf", walletKey := str! op "key", walletName := name, pkey := pkey }
+          let (f', _) := migrateCurrent macAead utf8dec toyPrims (some (rowId (nat! op "idx"))) a (deliver f)
+          ({ x with f := f' }, "killed")
+        else (x, "done")
+      | _ => (x, "bad-op")
+    (x', outs ++ [Json.mkObj [("res", res), ("st", stateJson name pkey x')]])
+  let (_, outs) := (arr! j "ops").foldl step (x0, [])
+  .arr outs.toArray
+
 def runCase (j : Json) : Json :=
   match str! j "kind" with
   | "c18:copy" => runCopy j
   | "c18:indy" => runIndy j
+  | "c18:indyx" => runIndyX j
   | "c18:fixture" =>
     -- the shipped fixture holds no items
     runIndy (Json.mkObj [("name", "walletwallet.0"), ("items", .arr #[])])
